@@ -15,6 +15,9 @@ import Golib.Hash.GoBridgeHash
 import Golib.Hash.GoBridgeHexa
 import Golib.Hash.GoBridgeMurmur
 import Golib.Hash.IpShape
+import Golib.Hash.GoBridgeFull
+import Golib.Hash.StrShape
+import Golib.Hash.CrcProofs
 
 namespace C15Gen
 open GoSem GoBridge Gen.C15
@@ -36,12 +39,6 @@ theorem hexa_constants_tied :
 theorem murmur_seeds_tied :
     murmur_MurmurHashByte_seed = some Murmur.defaultSeed
     ∧ murmur_MurmurHashLongByte_seed = some Murmur.defaultSeed := by decide +kernel
-
-/-- the constant each register starts from -/
-theorem hash_init_tied :
-    loop_Hash.init = some 0xffffffff ∧ loop_Hash64.init = some 0xffffffffffffffff
-    ∧ loop_Hash64v2.init = some 0xffffffffffffffff ∧ loop_Hash64V2.init = some 0xffffffffffffffff
-    ∧ loop_HashCode.init = some 0 := by decide +kernel
 
 /-- the string forms call the byte forms: `HashStr(s) = Hash([]byte(s))`, `Hash64Str → Hash64`,
     `Hash64StrV2 → Hash64V2`, `GetLongHash(s) = if s == "" then 0 else Hash64v2([]byte(s))`
@@ -105,47 +102,82 @@ theorem getLow16_tied (k : Int) (hk : isI16 k) : call noArr fn_GetLow16 [k] = ge
 
 example : isI32 (-1) ∧ isI64 (-5) := by unfold isI32 isI64; decide
 
-/-! ### util/hash — the whole loops, every byte string -/
+/-! ### util/hash — whole functions: guard, prelude, `for` header (as a `while` loop), body, final block -/
 
-/-- loop headers `for i := 0; i < len(bytes); i++`; the loop variable is identifier 1, the only variable
-    carried around the loop (the register) is identifier 2, the slice parameter identifier 0 -/
-theorem hash_headers_tied :
-    loop_Hash.header = ["#1 := 0", "#1 < len(#0)", "#1++"] ∧ loop_Hash64.header = ["#1 := 0", "#1 < len(#0)", "#1++"]
-    ∧ loop_Hash64v2.header = ["#1 := 0", "#1 < len(#0)", "#1++"] ∧ loop_Hash64V2.header = ["#1 := 0", "#1 < len(#0)", "#1++"]
-    ∧ loop_HashCode.header = ["#1 := 0", "#1 < len(#0)", "#1++"]
-    ∧ loop_Hash.loopVar = 1 ∧ loop_Hash.carried = [2] ∧ loop_Hash64.loopVar = 1 ∧ loop_Hash64.carried = [2]
-    ∧ loop_Hash64v2.loopVar = 1 ∧ loop_Hash64v2.carried = [2] ∧ loop_Hash64V2.loopVar = 1 ∧ loop_Hash64V2.carried = [2]
-    ∧ loop_HashCode.loopVar = 1 ∧ loop_HashCode.carried = [2] := by decide
+/-- **`Hash(bytes)`**, nil or not: `crc := 0xffffffff; sz := len(bytes); for i := 0; i < sz; i++ { … }; crc ^= …;
+    return int32(crc)` — every block regenerated from the source and interpreted by `GoSem` — is `Hash.hash`,
+    hence CRC-32 (IEEE) of the bytes by `C15.hash_is_crc32`.  No hypothesis on the start environment. -/
+theorem hash_full_tied (o : Option Bytes) (hw : WFB (o.getD [])) (hl : (o.getD []).length < 4611686018427387904) (ρ : Env) :
+    callWhile (hashArrsO o) loop_Hash.pre loop_Hash.init loop_Hash.cond loop_Hash.post loop_Hash.body loop_Hash.after
+      ((o.getD []).length + 1) ρ = Hash.hash (o.getD []) :=
+  hash_full_bridge _ _ _ _ _ _ ⟨by decide +kernel, by decide +kernel, by decide +kernel, by decide +kernel,
+    by decide +kernel, by decide +kernel⟩ o hw hl ρ
 
-/-- `Hash`: register (identifier 2) starting at 0xffffffff, the transcribed loop body run once per index,
-    the transcribed final block — is `Hash.hash bs` (hence CRC-32 by `C15.hash_is_crc32`) -/
-theorem hash_tied (bs : Bytes) (hw : WFB bs) (ρ : Env) (hρ : ρ 2 = 4294967295) :
-    retVal (runRet (hashArrs bs) (forLoop (hashArrs bs) loop_Hash.body 1 bs.length 0 ρ) loop_Hash.after)
-      = Hash.hash bs :=
-  hash_fn_bridge _ _ (by decide +kernel) (by decide +kernel) bs hw ρ hρ
+theorem hash64_full_tied (o : Option Bytes) (hw : WFB (o.getD [])) (hl : (o.getD []).length < 4611686018427387904) (ρ : Env) :
+    callWhile (hashArrsO o) loop_Hash64.pre loop_Hash64.init loop_Hash64.cond loop_Hash64.post loop_Hash64.body
+      loop_Hash64.after ((o.getD []).length + 1) ρ = Hash.hash64 (o.getD []) :=
+  hash64_full_bridge _ _ _ _ _ _ ⟨by decide +kernel, by decide +kernel, by decide +kernel, by decide +kernel,
+    by decide +kernel, by decide +kernel⟩ o hw hl ρ
 
-theorem hash64_tied (bs : Bytes) (hw : WFB bs) (ρ : Env) (hρ : ρ 2 = 18446744073709551615) :
-    retVal (runRet (hashArrs bs) (forLoop (hashArrs bs) loop_Hash64.body 1 bs.length 0 ρ) loop_Hash64.after)
-      = Hash.hash64 bs :=
-  hash64_fn_bridge _ _ (by decide +kernel) (by decide +kernel) bs hw ρ hρ
+/-- the regenerated `Hash` computes CRC-32 (IEEE) of the bytes, read as int32 — the property's first clause,
+    stated about the regenerated code -/
+theorem hash_crc32_tied (o : Option Bytes) (hw : WFB (o.getD [])) (hl : (o.getD []).length < 4611686018427387904) (ρ : Env) :
+    callWhile (hashArrsO o) loop_Hash.pre loop_Hash.init loop_Hash.cond loop_Hash.post loop_Hash.body loop_Hash.after
+      ((o.getD []).length + 1) ρ = Hash.toI32 (Hash.crc32 (o.getD [])) := by
+  rw [hash_full_tied o hw hl ρ]
+  unfold Hash.hash
+  rw [Hash.hashU_eq_crc32 _ hw]
 
-theorem hash64v2_tied (bs : Bytes) (hw : WFB bs) (ρ : Env) (hρ : ρ 2 = 18446744073709551615) :
-    retVal (runRet (hashArrs bs) (forLoop (hashArrs bs) loop_Hash64v2.body 1 bs.length 0 ρ) loop_Hash64v2.after)
-      = Hash.hash64v2 (some bs) :=
-  hash64v2_fn_bridge _ _ (by decide +kernel) (by decide +kernel) bs hw ρ hρ
+/-- the regenerated table is the CRC-32 table: entry `i` = eight shift/xor steps of `i` with 0xEDB88320 -/
+theorem crc_table_generated_tied : crcTable = (List.range 256).map Hash.crcEntry := by
+  rw [table_tied]; exact Hash.table_eq_entries
 
-theorem hash64V2_tied (bs : Bytes) (hw : WFB bs) (hne : bs ≠ []) (ρ : Env) (hρ : ρ 2 = 18446744073709551615) :
-    retVal (runRet (hashArrs bs) (forLoop (hashArrs bs) loop_Hash64V2.body 1 bs.length 0 ρ) loop_Hash64V2.after)
-      = Hash.hash64V2 (some bs) :=
-  hash64V2_fn_bridge _ _ (by decide +kernel) (by decide +kernel) bs hw hne ρ hρ
+/-- `Hash64v2` including `if bytes == nil { return 0 }` (`none` is the nil slice) -/
+theorem hash64v2_full_tied (o : Option Bytes) (hw : WFB (o.getD [])) (hl : (o.getD []).length < 4611686018427387904)
+    (ρ : Env) :
+    callWhile (hashArrsO o) loop_Hash64v2.pre loop_Hash64v2.init loop_Hash64v2.cond loop_Hash64v2.post loop_Hash64v2.body
+      loop_Hash64v2.after ((o.getD []).length + 1) ρ = Hash.hash64v2 o :=
+  hash64v2_full_bridge _ _ _ _ _ _ ⟨by decide +kernel, by decide +kernel, by decide +kernel, by decide +kernel,
+    by decide +kernel, by decide +kernel⟩ o hw hl ρ
 
-/-- `stringutil.HashCode`, whole function -/
-theorem hashCode_tied (bs : Bytes) (hw : WFB bs) (ρ : Env) :
-    callLoop (strArrs bs) loop_HashCode.pre loop_HashCode.body loop_HashCode.after 1 bs.length ρ
-      = StrHash.hashCode bs :=
-  hashCode_fn_bridge _ _ _ (by decide +kernel) (by decide +kernel) (by decide +kernel) bs hw ρ
+/-- `Hash64V2` including `if sz := len(bytes); sz == 0 { return 0 } else { … }` -/
+theorem hash64V2_full_tied (o : Option Bytes) (hw : WFB (o.getD [])) (hl : (o.getD []).length < 4611686018427387904)
+    (ρ : Env) :
+    callWhile (hashArrsO o) loop_Hash64V2.pre loop_Hash64V2.init loop_Hash64V2.cond loop_Hash64V2.post loop_Hash64V2.body
+      loop_Hash64V2.after ((o.getD []).length + 1) ρ = Hash.hash64V2 o :=
+  hash64V2_full_bridge _ _ _ _ _ _ ⟨by decide +kernel, by decide +kernel, by decide +kernel, by decide +kernel,
+    by decide +kernel, by decide +kernel⟩ o hw hl ρ
 
-example : WFB [104, 105] := by decide
+/-- hence the two regenerated v2 implementations agree on every input -/
+theorem hash64v2_agree_tied (o : Option Bytes) (hw : WFB (o.getD [])) (hl : (o.getD []).length < 4611686018427387904)
+    (ρ ρ' : Env) :
+    callWhile (hashArrsO o) loop_Hash64v2.pre loop_Hash64v2.init loop_Hash64v2.cond loop_Hash64v2.post loop_Hash64v2.body
+      loop_Hash64v2.after ((o.getD []).length + 1) ρ
+    = callWhile (hashArrsO o) loop_Hash64V2.pre loop_Hash64V2.init loop_Hash64V2.cond loop_Hash64V2.post
+      loop_Hash64V2.body loop_Hash64V2.after ((o.getD []).length + 1) ρ' := by
+  rw [hash64v2_full_tied o hw hl ρ, hash64V2_full_tied o hw hl ρ']
+  exact Hash.hash64v2_agree o
+
+/-- `HashAddr`: `switch len(src) { case 4: c := ToInt(src); return int64(c)*int64(c)  case 8: return ToLong(src)
+    default: return int64(Hash(src)) }`; the three calls are pseudo-variables 1, 3, 4 holding the callees' results -/
+theorem hashAddr_tied (src : Bytes) (hw : WFB src) (ρ : Env)
+    (h1 : ρ 1 = (Hash.toInt src).getD 0) (h3 : ρ 3 = (Hash.toLong src).getD 0) (h4 : ρ 4 = Hash.hash src) :
+    retVal (runRet (bufArrs src) ρ fn_HashAddr.body) = Hash.hashAddr src :=
+  hashAddr_bridge _ (by decide +kernel) src hw ρ h1 h3 h4
+
+/-- which identifier numbers stand for the three calls (`#0` is the parameter `src`) -/
+theorem hashAddr_calls_tied :
+    fn_HashAddr.names.lookup "ToInt(#0)" = some 1 ∧ fn_HashAddr.names.lookup "ToLong(#0)" = some 3
+    ∧ fn_HashAddr.names.lookup "Hash(#0)" = some 4 := by decide
+
+/-- `stringutil.HashCode`, whole function with its `for i := 0; i < len(s); i++` -/
+theorem hashCode_full_tied (bs : Bytes) (hw : WFB bs) (hl : bs.length < 4611686018427387904) (ρ : Env) :
+    callWhile (strArrs bs) loop_HashCode.pre loop_HashCode.init loop_HashCode.cond loop_HashCode.post loop_HashCode.body
+      loop_HashCode.after (bs.length + 1) ρ = StrHash.hashCode bs :=
+  hashCode_full_bridge _ _ _ _ _ _ (by decide +kernel) (by decide +kernel) (by decide +kernel) (by decide +kernel)
+    (by decide +kernel) (by decide +kernel) (by decide +kernel) bs hw hl ρ
+
+example : WFB ((some [104, 105] : Option Bytes).getD []) := by decide
 
 /-! ### util/hexa32 — `to_long` and `to_str`, whole functions -/
 
@@ -156,6 +188,10 @@ theorem toLong_tied (ρ : Env) (cs : List Char) :
       = Hexa32.toLong cs :=
   toLong_fn_bridge fn_findc loop_to_long.pre loop_to_long.body loop_to_long.after
     (by decide +kernel) (by decide +kernel) (by decide +kernel) (by decide +kernel) noArr ρ cs
+
+/-- the character loop of `to_long` is `for i := 0; i < len(s); i++` (compared as text; its meaning is the
+    recursion over the characters in `GoBridge.goToLong`) -/
+theorem toLong_header_tied : loop_to_long.header = ["#1 := 0", "#1 < len(#0)", "#1++"] := by decide
 
 /-- the closure `findc` -/
 theorem findc_tied (c : Char) : call noArr fn_findc [(c.toNat : Int)] = Hexa32.findc c := by
@@ -175,6 +211,42 @@ theorem toStr_tied (v : Int) (hv : 0 ≤ v ∧ v ≤ Hexa32.maxInt64) (ρ : Env)
 
 example : (0 : Int) ≤ 35 ∧ (35 : Int) ≤ Hexa32.maxInt64 := by decide
 
+/-! ### util/hexa32 — the top level: `ToString32`, `ToLong32` and the bijection, all from regenerated code -/
+
+/-- `to_str(v)` as regenerated and interpreted -/
+def goToStrF (v : Int) : List Char :=
+  goToStrLoop hexaArrs loop_to_str.cond loop_to_str.body loop_to_str.post loop_to_str.after (v.natAbs + 1)
+    (runEnv hexaArrs (runEnv hexaArrs (upd (fun _ => 0) 0 v) loop_to_str.pre) loop_to_str.init) []
+
+/-- `to_long(s)` as regenerated and interpreted -/
+def goToLongF (cs : List Char) : Int :=
+  goToLong noArr fn_findc loop_to_long.body loop_to_long.after (runEnv noArr (fun _ => 0) loop_to_long.pre) cs
+
+/-- **`ToString32(num)`** — sign test, the MinInt64 literal, `"z" + to_str(-num)`, `strconv.Itoa` for 0..9,
+    `"x" + to_str(num)`, with `to_str` the regenerated function — is `Hexa32.toString32`, on all of int64 -/
+theorem toString32_full_tied (n : Int) (hn : Hexa32.minInt64 ≤ n ∧ n ≤ Hexa32.maxInt64) (A : Arrays) (ρ : Env) (h0 : ρ 0 = n) :
+    StrShape.evalT goToStrF ρ A tree_ToString32 = Hexa32.toString32 n := by
+  have e : tree_ToString32 = GoModel.tree_ToString32 := by decide +kernel
+  rw [e]
+  exact StrShape.toString32_bridge goToStrF
+    (fun v h0 h1 => toStr_tied v ⟨h0, h1⟩ _ (by simp [upd])) A ρ n h0 hn.1 hn.2
+
+/-- **`ToLong32(str)`** — empty text, first byte `z` / `x`, the MinInt64 literal, `-1 * to_long(str[1:])`,
+    `strconv.Atoi` otherwise, with `to_long` the regenerated function — is `Hexa32.toLong32`, on every text -/
+theorem toLong32_full_tied (s : List Char) : StrShape.evalD goToLongF s tree_ToLong32 = Hexa32.toLong32 s := by
+  have e : tree_ToLong32 = GoModel.tree_ToLong32 := by decide +kernel
+  rw [e]
+  exact StrShape.toLong32_bridge goToLongF (fun t => toLong_tied _ t) s
+
+/-- **the identifier encoding is a bijection on int64, stated about the regenerated code**: decoding (regenerated
+    `ToLong32`) the encoding (regenerated `ToString32`) of any 64-bit integer returns it — MinInt64 and both signs included -/
+theorem hexa_bijection_tied (n : Int) (hn : Hexa32.minInt64 ≤ n ∧ n ≤ Hexa32.maxInt64) (A : Arrays) (ρ : Env) (h0 : ρ 0 = n) :
+    StrShape.evalD goToLongF (StrShape.evalT goToStrF ρ A tree_ToString32) tree_ToLong32 = n := by
+  rw [toString32_full_tied n hn A ρ h0, toLong32_full_tied]
+  exact Hexa32.toLong32_toString32 n hn.1 hn.2
+
+example : Hexa32.minInt64 ≤ Hexa32.minInt64 ∧ Hexa32.minInt64 ≤ Hexa32.maxInt64 := by decide
+
 /-! ### util/hll — MurmurHashLong and murmurHash, whole functions -/
 
 theorem murmurHashLong_fn_tied (d : Nat) (hd : d < 18446744073709551616) :
@@ -182,29 +254,41 @@ theorem murmurHashLong_fn_tied (d : Nat) (hd : d < 18446744073709551616) :
   rw [call_congr (g := GoModel.fn_MurmurHashLong) (by decide +kernel) (by decide +kernel)]
   exact murmurLong_bridge d hd
 
-/-- `murmurHash(data, len(data), seed)`: loop header `for i := 0; i < int(len_4); i++`, identifier numbers,
-    prelude, body, tail and avalanche — is `Murmur.murmur32 data seed` (for which Props.C15 proves the exact
-    relation to MurmurHash2) -/
-theorem murmurHash_tied (data : Bytes) (hw : WFB data) (seed : Nat) (hs : seed < 4294967296)
+/-- `murmurHash(data, len(data), seed)` with its header `for i := 0; i < int(len_4); i++` interpreted: prelude,
+    loop, tail and avalanche — is `Murmur.murmur32 data seed` (Props.C15: the exact relation to MurmurHash2).
+    `ρ 1`, `ρ 2` are the arguments `length`, `seed`. -/
+theorem murmurHash_full_tied (data : Bytes) (hw : WFB data) (seed : Nat) (hs : seed < 4294967296)
     (hl : data.length < 2147483648) (ρ : Env) (h1 : ρ 1 = (data.length : Int)) (h2 : ρ 2 = (seed : Int)) :
-    callLoop (dataArrs data) loop_murmurHash.pre loop_murmurHash.body loop_murmurHash.after 3 (data.length / 4) ρ
-      = ((Murmur.murmur32 data seed : Nat) : Int) :=
-  murmur32_fn_bridge _ _ _ (by decide +kernel) (by decide +kernel) (by decide +kernel) (by decide +kernel)
+    callWhile (dataArrs data) loop_murmurHash.pre loop_murmurHash.init loop_murmurHash.cond loop_murmurHash.post
+      loop_murmurHash.body loop_murmurHash.after (data.length / 4 + 1) ρ = ((Murmur.murmur32 data seed : Nat) : Int) :=
+  murmur32_full_bridge _ _ _ _ _ _ (by decide +kernel) (by decide +kernel) (by decide +kernel) (by decide +kernel)
     (by decide +kernel) (by decide +kernel) (by decide +kernel) data hw seed hs hl ρ h1 h2
 
-/-- `murmurHashLong(data, len(data), seed)` (behind `MurmurHashLongByte`): prelude, loop body, the
-    fall-through `switch` on `length % 8`, avalanche — is `Murmur.murmur64 data seed` = MurmurHash64A -/
-theorem murmurHashLong64_tied (data : Bytes) (hw : WFB data) (seed : Nat) (hs : seed < 4294967296)
+/-- … which is the published MurmurHash2 of the input with its last `len % 4` bytes reversed -/
+theorem murmurHash_ref_tied (data : Bytes) (hw : WFB data) (seed : Nat) (hs : seed < 4294967296)
     (hl : data.length < 2147483648) (ρ : Env) (h1 : ρ 1 = (data.length : Int)) (h2 : ρ 2 = (seed : Int)) :
-    callLoop (dataArrs data) loop_murmurHashLong.pre loop_murmurHashLong.body loop_murmurHashLong.after 3
-      (data.length / 8) ρ = ((Murmur.murmur64 data seed : Nat) : Int) :=
-  murmur64_fn_bridge _ _ _ (by decide +kernel) (by decide +kernel) (by decide +kernel) data hw seed hs hl ρ h1 h2
+    callWhile (dataArrs data) loop_murmurHash.pre loop_murmurHash.init loop_murmurHash.cond loop_murmurHash.post
+      loop_murmurHash.body loop_murmurHash.after (data.length / 4 + 1) ρ
+      = ((Murmur.Ref.murmurHash2 (Murmur.swapTail data) seed : Nat) : Int) := by
+  rw [murmurHash_full_tied data hw seed hs hl ρ h1 h2, Murmur.murmur32_eq_ref_swapTail data seed hw]
 
-theorem murmur_headers_tied :
-    loop_murmurHash.header = ["#3 := 0", "#3 < int(#7)", "#3++"] ∧ loop_murmurHash.loopVar = 3
-    ∧ loop_murmurHash.carried = [4]
-    ∧ loop_murmurHashLong.header = ["#3 := 0", "#3 < int(#7)", "#3++"] ∧ loop_murmurHashLong.loopVar = 3
-    ∧ loop_murmurHashLong.carried = [4] := by decide
+/-- `murmurHashLong(data, len(data), seed)` (behind `MurmurHashLongByte`): prelude, `for i := 0; i < int(length8); i++`,
+    the fall-through `switch` on `length % 8`, avalanche — is `Murmur.murmur64 data seed` = MurmurHash64A -/
+theorem murmurHashLong64_full_tied (data : Bytes) (hw : WFB data) (seed : Nat) (hs : seed < 4294967296)
+    (hl : data.length < 2147483648) (ρ : Env) (h1 : ρ 1 = (data.length : Int)) (h2 : ρ 2 = (seed : Int)) :
+    callWhile (dataArrs data) loop_murmurHashLong.pre loop_murmurHashLong.init loop_murmurHashLong.cond
+      loop_murmurHashLong.post loop_murmurHashLong.body loop_murmurHashLong.after (data.length / 8 + 1) ρ
+      = ((Murmur.murmur64 data seed : Nat) : Int) :=
+  murmur64_full_bridge _ _ _ _ _ _ (by decide +kernel) (by decide +kernel) (by decide +kernel) (by decide +kernel)
+    (by decide +kernel) (by decide +kernel) (by decide +kernel) data hw seed hs hl ρ h1 h2
+
+/-- the regenerated `murmurHashLong` is the published MurmurHash64A -/
+theorem murmurHashLong64_ref_tied (data : Bytes) (hw : WFB data) (seed : Nat) (hs : seed < 4294967296)
+    (hl : data.length < 2147483648) (ρ : Env) (h1 : ρ 1 = (data.length : Int)) (h2 : ρ 2 = (seed : Int)) :
+    callWhile (dataArrs data) loop_murmurHashLong.pre loop_murmurHashLong.init loop_murmurHashLong.cond
+      loop_murmurHashLong.post loop_murmurHashLong.body loop_murmurHashLong.after (data.length / 8 + 1) ρ
+      = ((Murmur.Ref.murmurHash64A data seed : Nat) : Int) := by
+  rw [murmurHashLong64_full_tied data hw seed hs hl ρ h1 h2, Murmur.murmur64_eq_ref data seed hw]
 
 /-! ### hash.ToInt / hash.ToLong -/
 
